@@ -277,6 +277,21 @@ def P14(m, R):
                 continue
             if res.get('table_scans') and not sep_given:
                 st_, tab, _k = res['table_scans'][0]
+                # skipping blanks finds the piece only if no piece begins with a blank; rsplit's first piece does when maxsplit runs out
+                rflag = f.own_params()[2] if name == '_split' and len(f.own_params()) > 2 else None
+                if rflag is not None:
+                    guards_, ch_, par_ = [], st_, getattr(st_, '_parent', None)
+                    while par_ is not None and par_ is not f.node:
+                        if isinstance(par_, ast.If):
+                            guards_.append(par_.test)
+                        ch_, par_ = par_, getattr(par_, '_parent', None)
+                    if not any(rflag in names_in(g_) for g_ in guards_):
+                        R.viol(f, st_, 'the start of a piece is found by skipping blanks (%s), for rsplit too (%s is not consulted): when maxsplit runs out, the first piece of '
+                                       'str.rsplit keeps its leading blanks -- "  a b c".rsplit(None, 0) is ["  a b c"] -- and is then cut from the wrong offset'
+                               % (short(st_), rflag), construct=cons)
+                        continue
+                    R.undecided(f, st_, 'blank-skipping gap scan under a condition on %s: not decided' % rflag, construct=cons)
+                    continue
                 if tab != 'isspace':
                     try:
                         from ..consteval import get_folder, Unfoldable
@@ -507,26 +522,40 @@ def P16(m, R):
             else:
                 R.undecided(f, last.stmt, 'memo %r vs returned %s' % (memo_v, norm(rv)), construct=cons)
         # the memo belongs to this property: nothing else stores it (a foreign store is what this property returns from then on)
-        C_ = m.cls('AnsiSetting')
-        foreign = []
-        for g in C_.methods.values():
-            if g is f or g.name == pname:
+        m.cls('AnsiSetting')
+        foreign, copies = [], []
+
+        def memo_read(v_):
+            """`<other>.<memo>` / `getattr(<other>, '<memo>'[, d])`: the flag of another setting"""
+            if isinstance(v_, ast.Attribute) and v_.attr == memo:
+                return True
+            return isinstance(v_, ast.Call) and call_name(v_) == 'getattr' and len(v_.args) >= 2 and const_val(v_.args[1], None) == memo
+        for g in m.funcs.values():
+            if g is f or (g.cls == 'AnsiSetting' and g.name == pname):
                 continue
             for n in g.walk():
                 tg = n.targets if isinstance(n, ast.Assign) else [n.target] if isinstance(n, (ast.AugAssign, ast.AnnAssign)) else []
-                for t_ in tg:
-                    if isinstance(t_, ast.Attribute) and t_.attr == memo and isinstance(t_.value, ast.Name):
-                        foreign.append((g, n))
+                hit = any(isinstance(t_, ast.Attribute) and t_.attr == memo for t_ in tg)
+                v_ = getattr(n, 'value', None) if hit else None
                 if isinstance(n, ast.Call) and call_name(n) == 'setattr' and len(n.args) == 3 and const_val(n.args[1], None) == memo:
-                    foreign.append((g, n))
+                    hit, v_ = True, n.args[2]
+                if not hit:
+                    continue
+                if g.qual == 'AnsiSetting.__init__' and v_ is not None and memo_read(v_):
+                    copies.append((g, n))       # a copy takes the flag of the setting it copies the text of: same text, same answer
+                else:
+                    foreign.append((g, n, v_))
         if not foreign:
-            R.ok(f, f.node, 'only %s stores its memo %s' % (pname, memo), construct='%s memo owner' % pname)
+            R.ok(f, f.node, 'only %s stores its memo %s%s' % (pname, memo, ' (a copy constructed from a setting takes its flag along with its text)' if copies else ''),
+                 construct='%s memo owner' % pname)
         else:
-            g, n = foreign[0]
-            v_ = getattr(n, 'value', None)
+            g, n, v_ = foreign[0]
             if v_ is not None and isinstance(const_val(v_, None), bool):
-                R.viol(g, n, '%s stores self.%s = %r: %s returns its memo when it is set, so once %s has run, %s is %r for every setting whatever its text' % (
-                    g.qual, memo, const_val(v_), pname, g.name, pname, const_val(v_)), construct='%s memo owner' % pname)
+                R.viol(g, n, '%s stores .%s = %r on a setting without consulting %s: %s returns its memo when it is set, so from then on %s is %r for that setting whatever '
+                             'its text (%s)' % (g.qual, memo, const_val(v_), pname, pname, pname, const_val(v_),
+                                                'for every setting once %s has run' % g.name if g.cls == 'AnsiSetting'
+                                                else 'e.g. "38;5;300", which the parser lets through and parsable rejects' if pname == 'parsable' else 'the predicate is bypassed'),
+                       construct='%s memo owner' % pname)
             else:
                 R.undecided(g, n, '%s stores the memo %s of %s' % (g.qual, memo, pname), construct='%s memo owner' % pname)
 
